@@ -191,6 +191,22 @@ class Normalizer(ast.NodeTransformer):
             if n is not node and isinstance(n, (ast.FunctionDef, ast.AsyncFunctionDef, ast.ClassDef, ast.Lambda)):
                 continue
             for L in blocks(n):
+                # `a, b = T` (T a name) and later in the block `for v in T`: T has exactly these elements
+                for i, st in enumerate(L):
+                    if isinstance(st, ast.Assign) and len(st.targets) == 1 and isinstance(st.targets[0], (ast.Tuple, ast.List)) \
+                            and isinstance(st.value, ast.Name) and 0 < len(st.targets[0].elts) <= MAX_ELTS \
+                            and all(isinstance(e, ast.Name) for e in st.targets[0].elts):
+                        tn = st.value.id
+                        parts = [e.id for e in st.targets[0].elts]
+                        if stores.get(tn) != 1 or any(stores.get(p_) != 1 for p_ in parts):
+                            continue
+                        for j in range(len(L)):
+                            if j != i and isinstance(L[j], ast.For) and isinstance(L[j].iter, ast.Name) and L[j].iter.id == tn:
+                                tup = ast.Tuple(elts=[ast.Name(id=p_, ctx=ast.Load()) for p_ in parts], ctx=ast.Load())
+                                ast.copy_location(tup, L[j].iter)
+                                ast.fix_missing_locations(tup)
+                                if j > i:
+                                    self.for_consts[id(L[j])] = tup
                 for i, st in enumerate(L):
                     if not (isinstance(st, ast.Assign) and len(st.targets) == 1 and isinstance(st.targets[0], ast.Name)
                             and isinstance(st.value, (ast.Tuple, ast.List)) and 0 < len(st.value.elts) <= MAX_ELTS
